@@ -50,12 +50,15 @@ pub struct Case {
     /// before the active block's) of the block that follows the file's highest active block - a lost race at the file boundary
     #[serde(default)]
     pub stale_tails: bool,
+    /// run with --verify from height >= 1 (verification must not keep or reopen files either)
+    #[serde(default)]
+    pub verify: bool,
 }
 
 pub fn strategy(tier: Tier) -> BS<Case> {
     let maxb = if tier == Tier::Quick { 260u16 } else { 600 };
-    (40u16..maxb, prop_oneof![1 => 1u16..4, 6 => 30u16..300], prop_oneof![4 => Just(Shape::Disjoint), 3 => (2u8..4).prop_map(Shape::Overlap), 3 => (2u8..4).prop_map(Shape::Interleave), 1 => proptest::collection::vec(any::<u16>(), 4..40).prop_map(Shape::Random)], proptest::sample::select(vec![Callback::CsvDump, Callback::SimpleStats, Callback::UnspentCsvDump]), proptest::option::weighted(0.3, any::<u16>()), proptest::option::weighted(0.3, any::<u16>()), any::<bool>(), proptest::bool::weighted(0.4), (prop_oneof![5 => Just(0u8), 1 => Just(1u8), 2 => Just(2u8), 1 => Just(3u8)], proptest::bool::weighted(0.35)).prop_map(|(v, st)| v | if st { 4 } else { 0 }))
-        .prop_map(|(nblocks, nfiles, shape, cb, start, end, reverse_order, xor, verbose)| Case { nblocks, nfiles: nfiles.min(nblocks), shape, cb, start, end, reverse_order, xor, verbose: verbose & 3, stale_tails: verbose & 4 != 0 })
+    (40u16..maxb, prop_oneof![1 => 1u16..4, 6 => 30u16..300], prop_oneof![4 => Just(Shape::Disjoint), 3 => (2u8..4).prop_map(Shape::Overlap), 3 => (2u8..4).prop_map(Shape::Interleave), 1 => proptest::collection::vec(any::<u16>(), 4..40).prop_map(Shape::Random)], proptest::sample::select(vec![Callback::CsvDump, Callback::SimpleStats, Callback::UnspentCsvDump]), proptest::option::weighted(0.3, any::<u16>()), proptest::option::weighted(0.3, any::<u16>()), any::<bool>(), proptest::bool::weighted(0.4), (prop_oneof![5 => Just(0u8), 1 => Just(1u8), 2 => Just(2u8), 1 => Just(3u8)], proptest::bool::weighted(0.35), proptest::bool::weighted(0.3)).prop_map(|(v, st, ver)| v | if st { 4 } else { 0 } | if ver { 8 } else { 0 }))
+        .prop_map(|(nblocks, nfiles, shape, cb, start, end, reverse_order, xor, verbose)| Case { nblocks, nfiles: nfiles.min(nblocks), shape, cb, start, end, reverse_order, xor, verbose: verbose & 3, stale_tails: verbose & 4 != 0, verify: verbose & 8 != 0 })
         .boxed()
 }
 
@@ -133,12 +136,17 @@ pub fn check(c: &Case) -> Verdict {
     let nb = built.blocks.len();
     let tip = built.tip();
     let s = c.start.map(|x| (x as u64 * nb as u64) >> 16).unwrap_or(0);
+    // --verify: block 0 of these chains is not a genesis block, so a verified run starts at height 1 or above; with
+    // stale siblings in the index the open finding D7 could make a sibling the record of start-1, so not combined
+    let verify = c.verify && !c.stale_tails && tip >= 2;
+    let s = if verify { s.max(1) } else { s };
     let end = c.end.map(|x| s + 1 + ((x as u64 * (tip + 1 - s)) >> 16));
     let e = end.map(|x| x.min(tip)).unwrap_or(tip);
     let mut o = RunOpts::new(built.coin, c.cb);
     o.start = if s > 0 { Some(s) } else { None };
     o.end = end;
     o.verbose = c.verbose;
+    o.verify = verify;
     // 1. calibrate on the single-file layout
     let mut single = LayoutSpec::canonical();
     single.xor = layout(c).xor;
